@@ -346,6 +346,8 @@ def norm(node):
     """Normalised text of a statement/expression (no positions; comparisons in canonical form)."""
     if isinstance(node, str):
         return re.sub(r"\s+", " ", node).strip()
+    if node is None:
+        return "<nothing>"  # e.g. the value of a bare `return`: equal to no expected text
     key = id(node)
     hit = _NORM_CACHE.get(key)
     if hit is not None and hit[0] is node:
